@@ -1226,6 +1226,14 @@ pub fn generate(thorough: bool, seed: u64, out: &mut dyn Write) {
         let m = gen_model(&mut rng, &o);
         writeln!(out, "parse {}", m.tokens()).unwrap();
     }
+    // bytes of the declaration blocks that carry no information (element padding, the end-marker
+    // slot's other fields, every slot behind the marker) filled with 0xFF / non-discriminant / random
+    // bytes by the Lean driver (`declfill`, Spec/MdlFill.lean): the reported model must not change
+    for i in 0..if thorough { 4000 } else { 80 } {
+        let o = GenOpts { max_meshes: if i % 5 == 0 { 5 } else { 2 }, max_vertices: 40, combos: COMBOS, v5_only: false, canonical: false };
+        let m = gen_model(&mut rng, &o);
+        writeln!(out, "declfill fill={} {}", rng.next() >> 1, m.tokens()).unwrap();
+    }
     // wide tables (see `gen_wide`): the version-6 bone table at every boundary count on every run,
     // every other table once per run (thorough: 60 times)
     for n in [255usize, 256, 257, 300] {
